@@ -142,9 +142,80 @@ class Graph:
         return [c for c, (bases, _, _) in self.classes.items() if short in bases]
 
     # --------------------------------------------------------------- resolving
+    def returned_names(self, q):
+        """names a package function can return, when ALL its return statements return bare names; else None"""
+        fn = self.fns[q]
+        out = []
+        for node in ast.walk(fn.node):
+            if isinstance(node, ast.Return):
+                if node.value is None:
+                    continue
+                if isinstance(node.value, ast.Name):
+                    out.append((fn.module, fn.cls, node.value.id))
+                else:
+                    return None
+        return out
+
+    def local_callables(self, f, imports):
+        """locals bound to the result of a package call that returns classes/functions by name"""
+        out = {}
+        for node in ast.walk(f.node):
+            if isinstance(node, ast.Assign) and len(node.targets) == 1 and isinstance(node.targets[0], ast.Name) \
+                    and isinstance(node.value, ast.Call):
+                fn = node.value.func
+                targets = []
+                if isinstance(fn, ast.Attribute) and isinstance(fn.value, ast.Name) and fn.value.id in ("self", "cls") and f.cls:
+                    targets = [q for q in self.methods_of_class(f.cls) if q.split(".")[-1] == fn.attr]
+                elif isinstance(fn, ast.Name) and f"{f.module}.{fn.id}" in self.fns:
+                    targets = [f"{f.module}.{fn.id}"]
+                if not targets:
+                    continue
+                res, ok = set(), True
+                for q in targets:
+                    names = self.returned_names(q)
+                    if names is None:
+                        ok = False
+                        break
+                    for mod, cls, name in names:
+                        if f"{mod}.{name}" in self.classes:
+                            res.add(("class", f"{mod}.{name}"))
+                        elif f"{mod}.{name}" in self.fns:
+                            res.add(("fn", f"{mod}.{name}"))
+                        else:
+                            ok = False
+                if ok and res:
+                    out[node.targets[0].id] = res
+        return out
+
+    def find_cells_and_escapes(self):
+        """callback cells (attributes assigned through cls.X = / Class.X =) and package callables passed as arguments"""
+        self.cells, self.escaped = set(), set()
+        for f in self.fns.values():
+            for node in ast.walk(f.node):
+                if isinstance(node, ast.Assign):
+                    for t in node.targets:
+                        if isinstance(t, ast.Attribute) and isinstance(t.value, ast.Name):
+                            if t.value.id == "cls" or any(c.split(".")[-1] == t.value.id for c in self.classes):
+                                self.cells.add(t.attr)
+                if isinstance(node, ast.Call):
+                    for a in list(node.args) + [k.value for k in node.keywords]:
+                        if isinstance(a, ast.Attribute) and isinstance(a.value, ast.Name) and a.value.id in ("self", "cls") and f.cls:
+                            for q in self.methods_of_class(f.cls):
+                                if q.split(".")[-1] == a.attr:
+                                    self.escaped.add(q)
+                        elif isinstance(a, ast.Name):
+                            q = f"{f.module}.{a.id}"
+                            if q in self.fns:
+                                self.escaped.add(q)
+                            imp = self.mod_imports[f.module].get(a.id)
+                            if imp and imp[0] == "pkgobj" and f"{imp[1]}.{imp[2]}" in self.fns:
+                                self.escaped.add(f"{imp[1]}.{imp[2]}")
+
     def resolve(self):
+        self.find_cells_and_escapes()
         for f in self.fns.values():
             imports = self.mod_imports[f.module]
+            self._locals = self.local_callables(f, imports)
             for node in ast.walk(f.node):
                 if isinstance(node, ast.Call):
                     self.resolve_call(f, node, imports)
@@ -214,6 +285,16 @@ class Graph:
             if name in ("getattr", "setattr", "globals", "vars"):
                 pass
             return
+        if name == "cls" and f.cls:
+            self.call_class(f, f.cls)
+            return
+        if name in getattr(self, "_locals", {}):
+            for kind, q in self._locals[name]:
+                if kind == "class":
+                    self.call_class(f, q)
+                else:
+                    f.calls.add(q)
+            return
         # unknown local callable: every package class may be constructed
         for cq in self.classes:
             self.call_class(f, cq)
@@ -264,6 +345,9 @@ class Graph:
         if isinstance(fn, ast.Attribute):
             root, chain = self.root_of(fn)
             meth = chain[-1]
+            if root in ("self", "cls") and len(chain) == 1 and meth in self.cells:
+                for q in self.escaped:      # a callback cell may hold any callable that escapes as an argument
+                    f.calls.add(q)
             if root in ("self", "cls") and len(chain) == 1 and f.cls:
                 targets = [q for q in self.methods_of_class(f.cls) if q.split(".")[-1] == meth]
                 for sub in self.subclasses(f.cls):
@@ -275,6 +359,14 @@ class Graph:
                 # attribute holding a callable (callback): any package function of that name, else benign
                 for q in self.by_name.get(meth, []):
                     f.calls.add(q)
+                return
+            if root == "<call>super" and f.cls:
+                # super().m(...): method m of the (package) bases of the enclosing class; external otherwise
+                for b in self.classes[f.cls][0]:
+                    for bq in self.class_by_short(b):
+                        for q in self.methods_of_class(bq):
+                            if q.split(".")[-1] == meth:
+                                f.calls.add(q)
                 return
             imp = imports.get(root) if root else None
             if imp and imp[0] == "module":
